@@ -369,7 +369,8 @@ def _replace_subexps(block, net_table):
 
 
 def _has_normal_dest_wire(net):
-    return not isinstance(net.dests[0], (Register, Output))
+    # memory write nets have no dest wire at all (and are never discarded)
+    return bool(net.dests) and not isinstance(net.dests[0], (Register, Output))
 
 
 def _process_nets_to_discard(nets, wire_map, unnecessary_nets):
